@@ -48,7 +48,7 @@ def leanchecker(st):
             return cache['note']
     except Exception:             # noqa: BLE001
         pass
-    mods = ['Sourcer.Properties'] + [m for m in ('Tie.Flags', 'Tie.Excerpt', 'Tie.MetaTable') if m not in st.failed_modules]
+    mods = ['Sourcer.Properties'] + [m for m in ('Tie.Flags', 'Tie.Excerpt', 'Tie.MetaTable', 'Tie.Binders') if m not in st.failed_modules]
     rc, out = _run(['lake', 'env', 'leanchecker'] + mods)
     note = None if rc == 0 else 'leanchecker rejects the compiled proofs: ' + out.strip().split('\n')[0][:200]
     with open(cache_path, 'w') as fh:
@@ -113,6 +113,12 @@ def ensure(translators=('flags',)):
             st.regen['metatable'] = {'ok': True, 'changed': changed}
         except Exception as exc:      # noqa: BLE001
             st.regen['metatable'] = {'ok': False, 'note': f'{type(exc).__name__}: {exc}'}
+        try:
+            import extract_binders
+            changed = extract_binders.regenerate()
+            st.regen['binders'] = {'ok': True, 'changed': changed}
+        except Exception as exc:      # noqa: BLE001
+            st.regen['binders'] = {'ok': False, 'note': f'{type(exc).__name__}: {exc}'}
         # --- build -----------------------------------------------------------------------
         rc, out = _run(['lake', 'build', 'Sourcer', 'driver'])
         st.build_log = out
@@ -128,7 +134,8 @@ def ensure(translators=('flags',)):
             if not st.failed_modules:
                 st.failed_modules.append('Tie')
             # a failing Gen module takes the Tie module that imports it with it
-            for g, t in (('Gen.Flags', 'Tie.Flags'), ('Gen.Excerpt', 'Tie.Excerpt'), ('Gen.MetaTable', 'Tie.MetaTable')):
+            for g, t in (('Gen.Flags', 'Tie.Flags'), ('Gen.Excerpt', 'Tie.Excerpt'), ('Gen.MetaTable', 'Tie.MetaTable'),
+                         ('Gen.Binders', 'Tie.Binders')):
                 if g in st.failed_modules and t not in st.failed_modules:
                     st.failed_modules.append(t)
             if any(m in st.failed_modules for m in ('Gen.Excerpt', 'Tie.Excerpt', 'xdriver', 'XDriver')):
@@ -138,6 +145,8 @@ def ensure(translators=('flags',)):
                 _run(['lake', 'build', 'Gen.Excerpt', 'Tie.Excerpt', 'xdriver'])
             if 'Tie.MetaTable' not in st.failed_modules:
                 _run(['lake', 'build', 'Gen.MetaTable', 'Tie.MetaTable'])
+            if 'Tie.Binders' not in st.failed_modules:
+                _run(['lake', 'build', 'Gen.Binders', 'Tie.Binders'])
         # --- forbidden tokens --------------------------------------------------------------
         for f in _sources():
             with open(f) as fh:
